@@ -2034,21 +2034,11 @@ class ExpressionEvaluator(Parser):
                     base = 8
 
             # Strip suffix (if present)
+            # u, l and ll may be combined in either order and any case.
             suffix = None
-            suffixes = [
-                "ull",
-                "ULL",
-                "ul",
-                "UL",
-                "ll",
-                "LL",
-                "u",
-                "U",
-                "l",
-                "L",
-            ]
+            suffixes = ["ull", "llu", "ul", "lu", "ll", "u", "l"]
             for s in suffixes:
-                if value.endswith(s):
+                if value.lower().endswith(s):
                     suffix = s
                     value = value[: -len(s)]
                     break
